@@ -134,11 +134,166 @@ fn crash_into(rep: &mut Report, histories: Vec<crashx::History>, bounds: crashx:
     }
 }
 
+/// the determinism self-test runs in a child process (the hook object is process-global)
+fn schedrun_selftest(scn: &str) -> Result<(), String> {
+    let exe = std::env::current_exe().map_err(|e| e.to_string())?;
+    let out = std::process::Command::new(exe).arg("sched-selftest").arg(scn).output().map_err(|e| e.to_string())?;
+    if out.status.success() {
+        Ok(())
+    } else {
+        Err(String::from_utf8_lossy(&out.stdout).lines().last().unwrap_or("failed").to_string())
+    }
+}
+
+fn seq_profiles_of(prop: &str, quick: bool) -> Vec<(Profile, u64)> {
+    match prop {
+        "C02" => profiles::c02_profiles(quick),
+        "C04" => profiles::c04_profiles(quick),
+        "C05" => profiles::c05_profiles(quick),
+        "C06" => profiles::c06_profiles(quick),
+        "C07" => profiles::c07_profiles(quick),
+        "C09" => profiles::c09_profiles(quick),
+        "C10" => profiles::c10_profiles(quick),
+        "C13" => profiles::c13_profiles(quick),
+        "C17" => profiles::c17_profiles(quick),
+        "C18" => profiles::c18_profiles(quick),
+        "C20" => profiles::c06_profiles(true),
+        _ => vec![],
+    }
+}
+
+fn histories_of(prop: &str, quick: bool) -> Vec<crashx::History> {
+    match prop {
+        "C01" => profiles::c01_histories(quick),
+        "C07" => profiles::c07_histories(quick),
+        "C08" => profiles::c08_histories(quick),
+        "C11" => profiles::c11_histories(quick),
+        "C13" => profiles::c13_histories(quick),
+        _ => vec![],
+    }
+}
+
+/// `vh replay <file>`: re-executes the recorded case twice and requires identical verdicts
+fn replay(path: &str) -> i32 {
+    let text = match std::fs::read_to_string(path) {
+        Ok(t) => t,
+        Err(e) => {
+            eprintln!("cannot read {path}: {e}");
+            return 2;
+        }
+    };
+    let v: serde_json::Value = serde_json::from_str(&text).expect("replay json");
+    let prop = v["property"].as_str().unwrap_or("").to_string();
+    let r = &v["replay"];
+    let engine = r["engine"].as_str().unwrap_or("");
+    println!("replaying {engine} case of {prop}: {}", v["message"].as_str().unwrap_or(""));
+    let run = || -> Result<String, String> {
+        match engine {
+            "seqx" => {
+                let ops: Vec<Op> = serde_json::from_value(r["ops"].clone()).map_err(|e| e.to_string())?;
+                let pname = r["profile"].as_str().unwrap_or("");
+                let pname = pname.strip_prefix("c10/").unwrap_or(pname);
+                let seed = r["seed"].as_str().unwrap_or("");
+                for quick in [true, false] {
+                    for (mut p, _) in seq_profiles_of(&prop, quick) {
+                        let n = p.name.strip_prefix("c10/").unwrap_or(&p.name).to_string();
+                        if n == pname || p.name == pname || pname == "contract-monitor-over-sequences" {
+                            if prop == "C10" {
+                                p.flags.decode_every_commit = true;
+                            }
+                            return par::guarded(|| seqx::replay_recorded(&p, seed, &ops)).map_err(|p| format!("panic: {p}"))?.map(|o| o.join(","));
+                        }
+                    }
+                }
+                Err(format!("profile {pname} not found"))
+            }
+            "crashx" => {
+                let hname = r["history"].as_str().unwrap_or("");
+                let cand: crashx::Candidate = serde_json::from_value(r["candidate"].clone()).map_err(|e| e.to_string())?;
+                if prop == "C11" {
+                    crashx::DEEP_OPEN.store(true, std::sync::atomic::Ordering::Relaxed);
+                }
+                for quick in [true, false] {
+                    if let Some(h) = histories_of(&prop, quick).into_iter().find(|h| h.name == hname) {
+                        let rec = crashx::record(&h)?;
+                        // rebuild the synced base at the crash point
+                        let mut synced: Vec<u8> = vec![];
+                        let mut pending: Vec<usize> = vec![];
+                        for (i, op) in rec.log.iter().enumerate() {
+                            if i > cand.point {
+                                break;
+                            }
+                            match op {
+                                vh::backend::LogOp::Sync => {
+                                    let c = crashx::Candidate { point: i, kept: pending.clone(), tear: None, d: 0, r: 0, npending: 0 };
+                                    synced = crashx::build_image(&synced, &rec.log, &c);
+                                    pending.clear();
+                                }
+                                vh::backend::LogOp::Write { .. } | vh::backend::LogOp::SetLen(_) => pending.push(i),
+                                _ => {}
+                            }
+                        }
+                        let img = crashx::build_image(&synced, &rec.log, &cand);
+                        return match crashx::judge(h.cfg, &img, &rec.cps, cand.d, cand.r, false) {
+                            crashx::Judged::Ok { cp, .. } => Ok(format!("recovered to commit point {cp}")),
+                            crashx::Judged::Bad(m) => Err(m),
+                        };
+                    }
+                }
+                Err(format!("history {hname} not found"))
+            }
+            "faultx" => {
+                let hname = r["history"].as_str().unwrap_or("");
+                let k = r["k"].as_u64().unwrap_or(0);
+                let mode = if r["mode"].as_str() == Some("Once") { vh::backend::FaultMode::Once } else { vh::backend::FaultMode::Permanent };
+                for quick in [true, false] {
+                    if let Some(h) = histories_of(&prop, quick).into_iter().find(|h| h.name == hname) {
+                        return par::guarded(|| faultx::replay_case(&h, k, mode)).map_err(|p| format!("panic: {p}"))?;
+                    }
+                }
+                Err(format!("history {hname} not found"))
+            }
+            "schedx" => {
+                let scn = r["scenario"].as_str().unwrap_or("S1").to_string();
+                let cache = r["cache"].as_u64().unwrap_or(0) as usize;
+                let choices: Vec<usize> = serde_json::from_value(r["choices"].clone()).map_err(|e| e.to_string())?;
+                schedx::sched();
+                schedx::set_reduction(r["reduced"].as_bool().unwrap_or(true));
+                // learn the shared-object set the search had, then replay
+                let mut run = |p: &[usize]| schedscn::run_once(&scn, cache, p);
+                for _ in 0..3 {
+                    let mut st = schedx::ExploreStats::default();
+                    let roots = schedx::frontier(&mut run, 1, &mut st);
+                    for root in roots {
+                        schedx::explore_subtree(&mut run, root, 1, 5_000, &mut st);
+                    }
+                }
+                let (_x, verdict) = schedscn::run_once(&scn, cache, &choices);
+                verdict
+            }
+            other => Err(format!("no replayer for engine {other:?} (the typex/allocx/corruptx/compatx binaries replay their own cases)")),
+        }
+    };
+    let a = run();
+    let b = run();
+    println!("first : {a:?}");
+    println!("second: {b:?}");
+    if a != b {
+        println!("MACHINERY-ERROR: the two replays disagree");
+        return 2;
+    }
+    match a {
+        Ok(_) => 0,
+        Err(e) => {
+            println!("VIOLATION property={prop} replay={path}");
+            println!("  {e}");
+            1
+        }
+    }
+}
+
 fn check(prop: &str, tier: &str) -> i32 {
     let quick = tier != "thorough";
-    if let Some(code) = vh::extra::dispatch(prop, tier) {
-        return code;
-    }
     match prop {
         "C04" => run_seq(
             prop,
@@ -276,6 +431,54 @@ fn check(prop: &str, tier: &str) -> i32 {
             rep.finish()
         }
         "C20" => contractx::run(tier),
+        "C03" | "C16" => {
+            use vh::schedrun::Plan;
+            let mut rep = Report::new(prop, tier, "model_checking");
+            rep.cov("exhaustive", json!(true));
+            rep.cov("rule", json!("stateless model checking of the real code under a controlled scheduler: every lock / try_lock / rwlock / condvar / atomic operation inside redb is a scheduling point (cfg(redb_verif) sync hooks); all schedules with at most k preemptions (iterative context bounding; forced switches at blocked or finished threads are free) are executed to completion from a frozen seed image. Reduction: a scheduling point is a preemption candidate only if its object was touched by >= 2 threads in some explored execution (set learned to a fixpoint in a warm-up at k=1), and a deviation is explored only if another thread operates on the same object later in that execution (conflict-directed pruning). Oracles per scenario on the recorded call/return history: single writer, serial order without lost updates, every read transaction = one commit point inside its invocation/response window and never moving backwards, no deadlock, no panic, page accounting, drain, backend contract; C16: per-table model, independent decoder (no page shared between tables), savepoint eligibility and restore. distinct = distinct observation vectors per scenario"));
+            rep.assumptions.push("sequentially consistent scheduler: behaviours that need weak memory ordering (e.g. the Relaxed PageTracker.tracking flag) are not generated".into());
+            rep.assumptions.push("at most 3 threads and k preemptions; preemption only at synchronisation operations (sufficient for safe Rust data)".into());
+            for scn in if prop == "C03" { vec!["S1", "S2", "S3", "S4", "S7"] } else { vec!["S5", "S5p", "S6"] } {
+                if let Err(e) = schedrun_selftest(scn) {
+                    rep.machinery_errors.push(format!("{scn}: determinism self-test: {e}"));
+                }
+            }
+            let mut plans = vec![];
+            if prop == "C03" {
+                for scn in ["S1", "S2", "S3", "S7"] {
+                    plans.push(Plan { scn, cache: 0, bound: 1, reduced: true, cap: 60_000 });
+                }
+                // the close path is long (thousands of points): non-preemptive interleavings in
+                // the quick tier, one preemption in the thorough tier
+                plans.push(Plan { scn: "S4", cache: 0, bound: if quick { 0 } else { 1 }, reduced: true, cap: 60_000 });
+                plans.push(Plan { scn: "S2", cache: 1, bound: 1, reduced: true, cap: 60_000 });
+                if !quick {
+                    for scn in ["S1", "S3", "S4", "S7"] {
+                        plans.push(Plan { scn, cache: 1, bound: 1, reduced: true, cap: 100_000 });
+                    }
+                    for scn in ["S2", "S3"] {
+                        plans.push(Plan { scn, cache: 0, bound: 2, reduced: true, cap: 1_500_000 });
+                    }
+                    plans.push(Plan { scn: "S2", cache: 2, bound: 1, reduced: true, cap: 200_000 });
+                    // the reduction cross-checked against the unreduced search
+                    plans.push(Plan { scn: "S2", cache: 0, bound: 1, reduced: false, cap: 400_000 });
+                }
+            } else {
+                for scn in ["S5", "S5p", "S6"] {
+                    plans.push(Plan { scn, cache: 0, bound: 1, reduced: true, cap: 60_000 });
+                }
+                if !quick {
+                    for scn in ["S5", "S5p", "S6"] {
+                        plans.push(Plan { scn, cache: 1, bound: 1, reduced: true, cap: 200_000 });
+                    }
+                    plans.push(Plan { scn: "S6", cache: 0, bound: 2, reduced: true, cap: 1_500_000 });
+                    plans.push(Plan { scn: "S5", cache: 0, bound: 2, reduced: true, cap: 600_000 });
+                    plans.push(Plan { scn: "S6", cache: 0, bound: 1, reduced: false, cap: 400_000 });
+                }
+            }
+            vh::schedrun::run_plans(&mut rep, plans);
+            rep.finish()
+        }
         "C07" => {
             let mut rep = Report::new(prop, tier, "model_checking");
             rep.cov("rule", json!("(a) every sequence of whole transactions, ephemeral/persistent savepoint create, drop, delete, restore followed by commit or abort (also with Durability::None), and reopen up to the depth bound; the model predicts every result from the public documentation (InvalidSavepoint / ImmediateDurabilityRequired rules, restored contents, invalidation of later savepoints, listings across reopen) and page accounting + drain must hold; (b) crash enumeration (engine of C01) over savepoint histories: persistent savepoints must be listed and restore to their captured tables after every crash state"));
@@ -326,6 +529,53 @@ fn main() {
     let args: Vec<String> = std::env::args().collect();
     let code = match args.get(1).map(|s| s.as_str()) {
         Some("smoke") => smoke(),
+        Some("sched-worker") => schedrun::worker_main(),
+        Some("sched-selftest") => {
+            let scn = args.get(2).cloned().unwrap_or("S2".into());
+            schedx::sched();
+            // learn the shared-object set first, then the same schedule must replay identically
+            let mut run = |p: &[usize]| schedscn::run_once(&scn, 0, p);
+            for _ in 0..3 {
+                let mut st = schedx::ExploreStats::default();
+                let roots = schedx::frontier(&mut run, 1, &mut st);
+                for r in roots.into_iter().take(40) {
+                    schedx::explore_subtree(&mut run, r, 0, 50, &mut st);
+                }
+            }
+            match schedrun::replay_selftest(&scn, 0) {
+                Ok(()) => 0,
+                Err(e) => {
+                    println!("{e}");
+                    2
+                }
+            }
+        }
+        Some("sched1") => {
+            // debug: vh sched1 <scn> <cache> <bound>
+            let scn = args.get(2).cloned().unwrap_or("S1".into());
+            let cache: usize = args.get(3).and_then(|s| s.parse().ok()).unwrap_or(0);
+            let bound: usize = args.get(4).and_then(|s| s.parse().ok()).unwrap_or(1);
+            schedx::sched();
+            if std::env::var("NOPRUNE").is_ok() { schedx::set_pruning(false); }
+            let mut run = |p: &[usize]| schedscn::run_once(&scn, cache, p);
+            {
+                let mut st = schedx::ExploreStats::default();
+                let roots = schedx::frontier(&mut run, 1, &mut st);
+                for r in roots { schedx::explore_subtree(&mut run, r, 1, 200000, &mut st); }
+                println!("warmup execs={} shared={}", st.executions, schedx::shared_ids().len());
+            }
+            println!("selftest: {:?}", schedrun::replay_selftest(&scn, cache));
+            let t0 = std::time::Instant::now();
+            let mut st = schedx::ExploreStats::default();
+            let roots = schedx::frontier(&mut run, bound, &mut st);
+            println!("roots={} points={} steps={}", roots.len(), st.max_points_per_execution, st.steps);
+            for r in roots {
+                schedx::explore_subtree(&mut run, r, bound, 200000, &mut st);
+            }
+            println!("execs={} pruned={} obs={:?} fails={:?} shared={} {:.1}s", st.executions, st.pruned, st.observations, st.failures.iter().take(3).collect::<Vec<_>>(), schedx::shared_ids().len(), t0.elapsed().as_secs_f64());
+            for n in schedx::shared_objects() { println!("  {n}"); }
+            0
+        }
         Some("crash1") => {
             let pat = args.get(2).cloned().unwrap_or_default();
             let hs: Vec<_> = profiles::c01_histories(true).into_iter().filter(|h| h.name == pat).collect();
@@ -336,6 +586,7 @@ fn main() {
             for f in st.record_failures.iter().take(3) { println!("RECFAIL {:?}", f); }
             0
         }
+        Some("replay") => replay(args.get(2).map(|s| s.as_str()).unwrap_or("")),
         Some("check") => check(args.get(2).map(|s| s.as_str()).unwrap_or(""), args.get(3).map(|s| s.as_str()).unwrap_or("quick")),
         _ => {
             eprintln!("usage: vh check <Cxx> <quick|thorough>");
